@@ -22,9 +22,10 @@ pub struct Input {
     pub models: Option<Vec<u32>>, // truth table of the source (n <= 16)
 }
 
-/// d4's root idiom (`o 1 0` with one unlabelled edge) as a class of the input space; off until the
-/// loader repair F12 (repo_patches/F12-or-with-true-child.patch) and its model are in
-pub const D4_ROOT_IDIOM: bool = false;
+/// d4's root idiom (`o 1 0` with one unlabelled edge) as a class of the input space; needs the
+/// loader repair F12 (repo_patches/F12-or-with-true-child.patch) in /repo: without it a
+/// tautological branch leaves a true node below an or node (model: load_d4_f12_v0)
+pub const D4_ROOT_IDIOM: bool = true;
 
 pub fn make_input(id: String, src: &Source, rng: &mut Rng) -> Option<Input> {
     make_input_class(id, src, rng, false)
